@@ -243,6 +243,38 @@ pub fn shrink_value(v: &Value) -> Vec<Value> {
     out
 }
 
+/// Of a few dozen candidates (pawn phalanxes far up the board, sparse endgames) the one whose
+/// static evaluation, as the engine computes it, is farthest from the bare material count;
+/// returns it with that distance. Whatever short cut a search takes around the evaluation
+/// (lazy evaluation, futility margins) is exercised where it matters most.
+pub fn lopsided_position(rng: &mut Rng) -> (crate::rules::Pos, i32) {
+    use crate::rules::*;
+    let mut ev = engine::eval::Evaluator::new();
+    let mut best: Option<(Pos, i32)> = None;
+    for k in 0..24 {
+        let p = if k % 4 == 3 { gen::sparse_position(rng) } else { gen::pawn_phalanx_position(rng) };
+        let board = engine::board::Board::new(&fen_for_search(&p));
+        let e = ev.evaluate(&board);
+        let mut m = 0i32;
+        for s in 0..64 {
+            let v = match kind(p.sq[s]) {
+                PAWN => 100,
+                KNIGHT => 320,
+                BISHOP => 330,
+                ROOK => 500,
+                QUEEN => 900,
+                _ => 0,
+            };
+            m += if is_black(p.sq[s]) { -v } else { v };
+        }
+        let d = (e - m).abs().min((e + m).abs());
+        if best.as_ref().map(|b| d > b.1).unwrap_or(true) {
+            best = Some((p, d));
+        }
+    }
+    best.unwrap()
+}
+
 /// Positions for C05: playouts at all stages, constructed tactical positions, sparse
 /// endgames (for the deeper fixed searches), terminal positions.
 pub fn pick_position(rng: &mut Rng, sparse: bool, promo: bool) -> crate::rules::Pos {
@@ -260,7 +292,8 @@ pub fn pick_position(rng: &mut Rng, sparse: bool, promo: bool) -> crate::rules::
     if sparse {
         return if rng.chance(1, 2) { gen::sparse_position(rng) } else { gen::advanced_pawn_position(rng) };
     }
-    match rng.below(8) {
+    match rng.below(9) {
+        8 => lopsided_position(rng).0,
         2 | 3 => gen::advanced_pawn_position(rng),
         0 => {
             let p = crate::rules::Pos::from_fen(*rng.pick(gen::EDGE_FENS)).unwrap();
@@ -399,7 +432,7 @@ pub fn run(ctx: &Ctx) -> i32 {
     });
     let ev = Evidence {
         level: "exploration",
-        rule: "Positions: seeded playouts of the rules model at all stages, constructed tactical/terminal positions, sparse endgames; kept when the unpruned reference fits its node budget. Of five sims two search a general position with find_best_move to depth 1..3, one a promotion-choice position (pawn on the 7th, both kings near the promotion square: stalemate tricks and mating under-promotions) to depth 2..3 (a third of these are instead positions with more than 128 legal moves - five to eight queens - to depth 1..2, a sixth middlegame positions with a single legal move at the root, a sixth positions in which promoting to a queen stalemates; a quarter of the promotion positions carry a halfmove clock of 96..99), two run one fixed-depth search at depth 4..5 on a sparse position (accepted only when no deeper cached result was reused), each fault-free under two key sets and under five buggified-cache configurations (probe-miss 1%/10%/50%, store-drop 0/10%/30%). Oracle: norm(score)==M and the move attains M. A case = (position, depth, mode, fault configuration) that was compared; all are non-trivial.".into(),
+        rule: "Positions: seeded playouts of the rules model at all stages, constructed tactical/terminal positions, sparse endgames; kept when the unpruned reference fits its node budget. Of five sims two search a general position with find_best_move to depth 1..3, one a promotion-choice position (pawn on the 7th, both kings near the promotion square: stalemate tricks and mating under-promotions) to depth 2..3 (a third of these are instead positions with more than 128 legal moves - five to eight queens - to depth 1..2, a sixth middlegame positions with a single legal move at the root, a sixth positions in which promoting to a queen stalemates; a quarter of the promotion positions carry a halfmove clock of 96..99), two run one fixed-depth search at depth 4..5 on a sparse position (accepted only when no deeper cached result was reused), each fault-free under two key sets and under five buggified-cache configurations (probe-miss 1%/10%/50%, store-drop 0/10%/30%). Oracle: norm(score)==M and the move attains M. A case = (position, depth, mode, fault configuration) that was compared; all are non-trivial. One general position in nine is chosen among 24 candidates (pawn phalanxes far up the board, sparse endgames) as the one whose static evaluation is farthest from the bare material count.".into(),
         extra: serde_json::Map::new(),
         assumptions: vec![
             "reference M takes the engine's move generator, make_move, static evaluation and full-window quiescence as given".into(),
